@@ -152,6 +152,58 @@ func fieldStores(fns []*ssa.Function, pkg, typ, field string) []fieldStore {
 	return out
 }
 
+// fieldWrite is an assignment of a struct field: a plain store, or Store /
+// Swap / CompareAndSwap of a sync/atomic typed field.
+type fieldWrite struct {
+	Fn     *ssa.Function
+	At     ssa.Instruction
+	Val    ssa.Value
+	Base   ssa.Value
+	Atomic bool
+}
+
+func fieldWrites(fns []*ssa.Function, pkg, typ, field string) []fieldWrite {
+	var out []fieldWrite
+	for _, fs := range fieldStores(fns, pkg, typ, field) {
+		out = append(out, fieldWrite{fs.Fn, fs.Store, fs.Store.Val, fs.Base, false})
+	}
+	for _, f := range fns {
+		for _, ci := range an.Calls(f) {
+			cc := ci.Common()
+			callee := cc.StaticCallee()
+			if callee == nil || an.FuncPkgPath(callee) != "sync/atomic" || len(cc.Args) < 2 {
+				continue
+			}
+			base, ok := fieldAddr(cc.Args[0], pkg, typ, field)
+			if !ok {
+				continue
+			}
+			switch callee.Name() {
+			case "Store", "Swap":
+				out = append(out, fieldWrite{f, ci, cc.Args[1], base, true})
+			case "CompareAndSwap":
+				if len(cc.Args) == 3 {
+					out = append(out, fieldWrite{f, ci, cc.Args[2], base, true})
+				}
+			}
+		}
+	}
+	return out
+}
+
+// atomicLoadOf: the call is Load() of the sync/atomic typed field pkg.typ.field.
+func atomicLoadOf(cc *ssa.CallCommon, pkg, typ string) (field string, ok bool) {
+	callee := cc.StaticCallee()
+	if callee == nil || an.FuncPkgPath(callee) != "sync/atomic" || callee.Name() != "Load" || len(cc.Args) != 1 {
+		return "", false
+	}
+	fa, isFA := cc.Args[0].(*ssa.FieldAddr)
+	if !isFA || !an.TypeIs(fa.X.Type(), pkg, typ) {
+		return "", false
+	}
+	return an.FieldAddrName(fa), true
+}
+
 // fieldAddrUses lists every FieldAddr of pkg.typ.field in the functions.
 func fieldAddrUses(fns []*ssa.Function, pkg, typ, field string) []*ssa.FieldAddr {
 	var out []*ssa.FieldAddr
@@ -178,6 +230,64 @@ func callSites(fns []*ssa.Function, pred func(*ssa.CallCommon) bool) []ssa.CallI
 		}
 	}
 	return out
+}
+
+// syncOnlyFrom: fn runs only as part of root, synchronously: every call site
+// of fn in the shipped functions is a plain call (no go, no defer) located in
+// root or in a function for which the same holds; a closure counts through
+// the place where its function literal is invoked.
+func syncOnlyFrom(fn, root *ssa.Function, shipped []*ssa.Function, depth int) (bool, string) {
+	if fn == root {
+		return true, ""
+	}
+	if depth > 8 {
+		return false, "call chain too deep"
+	}
+	var sites []ssa.CallInstruction
+	if fn.Parent() != nil {
+		// closure: where is the literal used?
+		for _, b := range fn.Parent().Blocks {
+			for _, in := range b.Instrs {
+				mc, ok := in.(*ssa.MakeClosure)
+				if !ok || mc.Fn != ssa.Value(fn) || mc.Referrers() == nil {
+					continue
+				}
+				for _, ref := range *mc.Referrers() {
+					if _, dbg := ref.(*ssa.DebugRef); dbg {
+						continue
+					}
+					ci, ok := ref.(ssa.CallInstruction)
+					if !ok || ci.Common().Value != ssa.Value(mc) {
+						return false, "the function literal " + fname(fn) + " is stored or passed on"
+					}
+					sites = append(sites, ci)
+				}
+			}
+		}
+	} else {
+		for _, g := range shipped {
+			for _, ci := range an.Calls(g) {
+				if an.StaticCallee(ci.Common()) == fn {
+					sites = append(sites, ci)
+				}
+			}
+		}
+	}
+	if len(sites) == 0 {
+		return false, fname(fn) + " has no call site"
+	}
+	for _, ci := range sites {
+		if !isCall(ci) {
+			return false, fname(fn) + " is started with go / defer in " + fname(ci.Parent())
+		}
+		if ok, why := syncOnlyFrom(ci.Parent(), root, shipped, depth+1); !ok {
+			if why == "" {
+				why = fname(ci.Parent()) + " is not part of " + fname(root)
+			}
+			return false, why
+		}
+	}
+	return true, ""
 }
 
 func isStatic(pkg, name string) func(*ssa.CallCommon) bool {
